@@ -614,6 +614,11 @@ func (r *Repository) referrersByTagSchema(ctx context.Context, desc ocispec.Desc
 		return err
 	}
 
+	// skip the bad entries (empty descriptors and duplicates) of the index
+	// in the same way as they are skipped when the index is updated
+	if cleaned, err := applyReferrerChanges(referrers, nil); err == nil {
+		referrers = cleaned
+	}
 	filtered := filterReferrers(referrers, artifactType)
 	if len(filtered) == 0 {
 		return nil
